@@ -637,12 +637,12 @@ def gen_cases(ctx):
                   "cols": [z(("77/8", "13/2", "5/2"), ("-6/5", 2, 10)), z(("-3/2", "-39/4", -10), (9, -7, "25/4")),
                            z((7, "-9/2", 7), (-8, "65/8", "9/2")), z((-3, "3/2", "-11/10"), (5, -8, 1))]})
     # single rows
-    for _ in range(12000 if T else 900):
+    for _ in range(12000 if T else 700):
         P = rnd_quad(rng)
         cases.append({"kind": "single", "stream": "single", "pts": pts_json(P), "form": rng.choice(["1d", "2d"]),
                       "degrees": rng.random() < 0.5, "motion": rnd_motion(rng)})
     # batched / mixed shapes
-    for _ in range(5000 if T else 500):
+    for _ in range(5000 if T else 400):
         n = rng.choice([1, 2, 2, 3, 3, 4, 5, 7])
         quads = [rnd_quad(rng) for _ in range(n)]
         cols = [[q[i] for q in quads] for i in range(4)]
@@ -669,7 +669,7 @@ def gen_cases(ctx):
             if fdot(c, c) < Fr(1, 25) * fdot(u, u) * fdot(v, v):
                 return False
         return True
-    for _ in range(6000 if T else 500):
+    for _ in range(6000 if T else 350):
         n = rng.randint(4, 7)
         while True:
             P = [rnd_point(rng, 6) for _ in range(n)]
@@ -696,7 +696,7 @@ def gen_cases(ctx):
         b = [rnd_point(rng) for _ in range(len(a) if rng.random() < 0.5 else rng.randint(1, 5))]
         cases.append({"kind": "distmat", "stream": "distmat", "a": pts_json(a), "b": pts_json(b)})
     # connectivity
-    for _ in range(8000 if T else 600):
+    for _ in range(8000 if T else 450):
         n = rng.randint(1, 15)
         box = rng.choice([2, 3, 4, 6])
         P = []
@@ -765,8 +765,8 @@ def correspond(ctx):
 
     def run(chk):
         items = buckets[chk]
-        return chk, coqrun.eval_bad_indices("C18-" + chk, REQ, "", chk, [t for t, _ in items], shard=max(25, len(items) // 16 + 1),
-                                            ty=CHK_TY[chk])
+        return chk, coqrun.eval_bad_indices("C18-" + chk, REQ, "", chk, [t for t, _ in items], shard=max(25, min(400, len(items) // 16 + 1)),
+                                            timeout=3000, ty=CHK_TY[chk])
     todo = [chk for chk, items in buckets.items() if items]
     with ThreadPoolExecutor(max_workers=len(todo) or 1) as ex:
         results = list(ex.map(run, todo))
@@ -833,7 +833,7 @@ LEVEL_TEXT = (
     "degrees = radians*180/pi, batched distance/angle/dihedral = row-wise for every number of rows, measure index form = row-wise form, distance_matrix entries, "
     "guess_connectivity = exactly the pairs i<j with d < thr(r_i+r_j) in lexicographic order, its rigid invariance and relabelling "
     "under reordering. Over the reals: angle = acos(textbook cosine) in [0,pi]; dihedral is an argument in [-pi,pi] of the textbook "
-    "pair (atan2 defined from acos, specification proved); reflection negates it; the squared-distance bond decision equals the "
+    "pair, and the only one in (-pi,pi] (atan2 defined from acos, specification proved); reflection negates it; the squared-distance bond decision equals the "
     "code's. (Batched compute_dihedral was found broken by this model — ValueError on 2 rows, wrong values on 3 — and repaired in "
     "/repo as 056f883; the old failing inputs stay in the corpus.)")
 LEVEL_NOTE = (
@@ -841,4 +841,4 @@ LEVEL_NOTE = (
     "rounding/inf/nan); libm arccos/arctan2 (their arguments are proved, their values checked by sin/cos residuals <= 1e-9 each run); "
     "hand models of measure_coordinates' dispatch, distance_matrix and the connectivity loop are tied by correspondence only; radii come "
     "from C17. Part-B theorems depend on the Reals library axioms (sig_forall_dec, sig_not_dec, functional_extensionality_dep, classic); "
-    "part A is closed. Uniqueness of the angle given its sin/cos direction is not proved (is_arg + range is the statement).")
+    "part A is closed.")
